@@ -34,6 +34,7 @@ type Case struct {
 	H       int                 `json:"h"`
 	Reports []inref.MouseReport `json:"reports"`
 	Cuts    []int               `json:"cuts,omitempty"`  // byte offsets at which a read ends (third pass)
+	EscAt   []int               `json:"esc_before,omitempty"` // a stray ESC byte directly in front of these reports (same read)
 	Calls   []string            `json:"calls,omitempty"` // live pass: EnableMouse re-programming before report i ("" none, "all", "drag", "buttons")
 }
 
@@ -230,8 +231,17 @@ func propOn1(in *tcell.VerifInput, c Case) error {
 		}
 	}
 	var st inref.MouseState
+	escAt := map[int]bool{}
+	for _, k := range c.EscAt {
+		escAt[k] = true
+	}
 	for i, r := range c.Reports {
 		b := r.Bytes()
+		if escAt[i] && !r.EightBit {
+			// the pending Alt prefix is swallowed by the report: it belongs to no
+			// key, and a mouse event carries the modifiers of its own report only
+			b = append([]byte{0x1b}, b...)
+		}
 		evs, left := in.Scan(b, false)
 		if left > 0 {
 			more, l2 := in.Scan(nil, true)
@@ -348,8 +358,34 @@ func genCase(t *rapid.T) Case {
 		c.Cuts = append(c.Cuts, rapid.IntRange(1, total-1).Draw(t, "cut"))
 	}
 	sort.Ints(c.Cuts)
+	if !escEsc[c.Entry] && rapid.IntRange(0, 3).Draw(t, "esc") == 0 {
+		c.EscAt = append(c.EscAt, rapid.IntRange(0, len(c.Reports)-1).Draw(t, "escat"))
+	}
 	return c
 }
+
+// escEsc: entries with a key sequence starting ESC ESC (a stray ESC in front of
+// another sequence is ambiguous there)
+var escEsc = func() map[string]bool {
+	m := map[string]bool{}
+	for _, n := range entryNames {
+		ti, err := terminfo.LookupTerminfo(n)
+		if err != nil {
+			continue
+		}
+		cp := *ti
+		tbl, err := tcell.VerifKeyTable(&cp)
+		if err != nil {
+			continue
+		}
+		for k := range tbl {
+			if len(k) > 1 && k[:2] == "\x1b\x1b" {
+				m[n] = true
+			}
+		}
+	}
+	return m
+}()
 
 func nonTrivial(c Case) bool {
 	// press -> drag -> release somewhere in the history
